@@ -32,6 +32,16 @@ HARNESSES = {
         "bounds": "buffers of 0..=40 symbolic bytes; length field (full u16) and extended-message flag symbolic; loop-free",
         "timeout": 900, "require_stubs": ["Stub: PeerCodec :: parse_message"],
     },
+    "c03_nlri_ipv4": {
+        "pkg": "rustybgp-packet", "target": "bgp::PeerCodec::decode_nlri (IPv4 unicast arm, add-path on/off, reach/unreach)", "complete": False,
+        "bounds": "buffers of 0..=12 symbolic bytes, unwind 14: no panic; a decoded entry consumes at least one byte; the reader stays inside the buffer",
+        "timeout": 900, "thorough_only": True, "require_stubs": ["Stub: alloc :: fmt :: format"],
+    },
+    "c03_nlri_ipv6": {
+        "pkg": "rustybgp-packet", "target": "bgp::PeerCodec::decode_nlri (IPv6 unicast arm, add-path on/off, reach/unreach)", "complete": False,
+        "bounds": "buffers of 0..=24 symbolic bytes, unwind 26: no panic; a decoded entry consumes at least one byte; the reader stays inside the buffer",
+        "timeout": 900, "thorough_only": True, "require_stubs": ["Stub: alloc :: fmt :: format"],
+    },
     # ---------------------------------------------------------------- C05
     "c05_canonical_flags_table": {
         "pkg": "rustybgp-packet", "target": "bgp::Attribute::canonical_flags", "complete": True,
